@@ -289,3 +289,42 @@ def small_scope(max_rules=2, nterms=2, max_prods=2, max_rhs=3, limit=None, strid
                 if limit and len(out) >= limit:
                     return out
     return out
+
+
+CURATED_CONFLICT = [
+    # classics; expected verdicts come from the reference, these only make sure the shapes are present
+    ("amb-expr", "e = e P e | N"),
+    ("amb-expr-prec", "e = e P e @left(1) | e M e @left(2) | N"),
+    ("amb-expr-right", "e = e P e @right(1) | N"),
+    ("amb-expr-mixed", "e = e P e @left(1) | e Q e @right(1) | N"),
+    ("amb-expr-two-right", "e = e P e @right(1) | e Q e @right(1) | N"),
+    ("amb-expr-levels", "e = e P e @left(1) | e M e @left(2) | e W e @right(3) | L e R | N"),
+    ("prec-one-side-only", "e = e P e @left(1) | e M e | N"),
+    ("prec-unary", "e = e P e @left(1) | M e @left(2) | N"),
+    ("prec-unary-low", "e = e P e @left(2) | M e @left(1) | N"),
+    ("prec-across-rules", "e = e P t @left(1) | t\nt = e M e @left(2) | N"),
+    ("prec-two-rules", "e = e P e @left(1) | t\nt = t M t @left(1) | N"),
+    ("dangling-else", "s = I s | I s E s | O"),
+    ("dangling-else-prec", "s = I s @left(1) | I s E s @left(2) | O"),
+    ("dangling-else-prec-right", "s = I s @right(1) | I s E s @right(1) | O"),
+    ("lr1-not-lalr", "s = A e C | A f D | B f C | B e D\ne = X\nf = X"),
+    ("lr1-not-lalr-prec", "s = A e C | A f D | B f C | B e D\ne = X @left(1)\nf = X @left(1)"),
+    ("reduce-reduce", "s = a | b\na = X\nb = X"),
+    ("reduce-reduce-prec", "s = a @left(1) | b @left(2)\na = X @left(1)\nb = X @left(2)"),
+    ("rr-qualified-same-rule", "s = x Y\nx = A @left(1) | A @left(2)"),
+    ("srr-triple", "e = e P e @left(1) | e P @left(1) | N"),
+    ("lalr-ok-not-slr", "s = l Q r | r\nl = M r | I\nr = l"),
+    ("not-lr-palindrome", "s = A s A | A"),
+    ("nullable-conflict", "s = a a\na = A | @empty"),
+    ("opt-conflict", "s = A? A"),
+    ("star-conflict", "s = A* A"),
+    ("list-conflict", "s = @list(A, B) B C | D"),
+    ("ternary-right", "e = e Q e C e @right(1) | e P e @left(2) | N"),
+    ("postfix", "e = e P @left(3) | M e @left(2) | e A e @left(1) | N"),
+    ("same-level-mixed-shifts", "e = e P e @left(1) | e P P e @left(2) | N"),
+    ("shift-two-levels", "e = e P N @left(1) | e P M @left(3) | e Q e @left(2) | N | M"),
+]
+
+
+def curated_conflict():
+    return [gram(n, t) for n, t in CURATED_CONFLICT]
